@@ -9,6 +9,7 @@ mod batch;
 mod drive;
 mod fgen;
 mod json;
+mod lockstep;
 mod monitors;
 mod refmodel;
 mod replay;
